@@ -20,7 +20,8 @@ impl WithExtMetadataBlocks for CmV40DmData {
 
     fn with_blocks_allocation(num_ext_blocks: u64) -> Self {
         Self {
-            ext_metadata_blocks: Vec::with_capacity(num_ext_blocks as usize),
+            // num_ext_blocks is read from the bitstream, don't trust it for the allocation
+            ext_metadata_blocks: Vec::with_capacity(num_ext_blocks.min(16) as usize),
             ..Default::default()
         }
     }
